@@ -245,7 +245,16 @@ def gen_dialect(trees):
     return out
 
 
+def load_plugins():
+    """component-owned generator modules tools/gen_<component>.py register more targets"""
+    import glob
+    import importlib
+    for f in sorted(glob.glob(os.path.join(HERE, 'gen_*.py'))):
+        importlib.import_module(os.path.basename(f)[:-3])
+
+
 def main(argv):
+    load_plugins()
     repo = '/repo'
     outdir = os.path.join(os.path.dirname(HERE), 'theories', 'Gen')
     only = None
